@@ -6,7 +6,7 @@ use crate::real::dt_from;
 use crate::refmodel::calendar as cal;
 use crate::refmodel::instant as ins;
 use astrolabe::errors::AstrolabeError;
-use astrolabe::{Date, DateTime, DateUtilities, Offset, Time, TimeUtilities};
+use astrolabe::{Date, DateTime, DateUtilities, Offset, Time, TimeUtilities, OffsetUtilities};
 use serde_json::{json, Value};
 
 /// outcome of a fallible call reduced to what the property talks about
@@ -519,6 +519,78 @@ fn case_setter_offset(day: i64, nod: u64, off: i32, setter: usize, v: i64, acc: 
     }
 }
 
+
+/// clock setters on a Time / DateTime that carries an offset, with the receiver chosen by its
+/// *local* time of day (so that exact local midnight, the last nanosecond of the local day and the
+/// wrap in both directions are all met)
+fn case_clock_setter_offset(ty: u8, day: i64, local_nod: u64, off: i32, setter: usize, v: i64, acc: &mut Acc) {
+    use crate::refmodel::fields;
+    let local = ins::join(day, local_nod);
+    let utc = local - off as i128 * ins::NS;
+    let (uday, unod) = ins::split(utc);
+    let case = json!({"kind": "clock_setter_offset", "ty": ty, "setter": setter, "day": day, "local_nod": local_nod.to_string(), "off": off, "v": v});
+    let expect = fields::set_field(local, setter, v);
+    let tyname = ["Date", "Time", "DateTime"][ty as usize];
+    let op = format!("{}::set_{}", tyname, SETTERS[setter]);
+    // observed: local time of day of the result (Time), or local instant of the result (DateTime)
+    let got: R<i128> = if ty == 1 {
+        let t0 = match crate::real::time_from(unod, off) {
+            Some(t) => t,
+            None => return,
+        };
+        attempt(|| {
+            let r = match setter {
+                4 => t0.set_hour(v as u32),
+                5 => t0.set_minute(v as u32),
+                6 => t0.set_second(v as u32),
+                7 => t0.set_milli(v as u32),
+                8 => t0.set_micro(v as u32),
+                _ => t0.set_nano(v as u32),
+            };
+            r.map(|x| {
+                let l = (x.as_nanos() as i128 + off as i128 * ins::NS).rem_euclid(ins::DAY);
+                let fields_read = (x.hour() as i128 * 3600 + x.minute() as i128 * 60 + x.second() as i128) * ins::NS + x.nano() as i128;
+                if fields_read != l || crate::real::off_secs(x.get_offset()) != off {
+                    -1
+                } else {
+                    l
+                }
+            })
+        })
+    } else {
+        let x0 = match crate::real::dt_from_off(uday, unod, off) {
+            Some(x) => x,
+            None => return,
+        };
+        attempt(|| {
+            let r = match setter {
+                4 => x0.set_hour(v as u32),
+                5 => x0.set_minute(v as u32),
+                6 => x0.set_second(v as u32),
+                7 => x0.set_milli(v as u32),
+                8 => x0.set_micro(v as u32),
+                _ => x0.set_nano(v as u32),
+            };
+            r.map(|x| match crate::real::dt_instant(&x) {
+                Some(i) if crate::real::off_secs(x.get_offset()) == off => i + off as i128 * ins::NS,
+                _ => -1,
+            })
+        })
+    };
+    acc.transitions += 1;
+    acc.states += 1;
+    let want: Option<i128> = expect.map(|l| if ty == 1 { l.rem_euclid(ins::DAY) } else { l });
+    match (want, &got) {
+        (Some(w), R::Ok(g)) if *g == w => acc.branch("accepted"),
+        (None, R::Oor(_)) => {
+            acc.branch("refused");
+            acc.nontrivial += 1;
+        }
+        (Some(w), other) => acc.violation(&op, "valid-clock-value-not-set-under-offset", case, format!("Ok with local reading {}", w), format!("{:?}", other)),
+        (None, other) => acc.violation(&op, "invalid-clock-value-not-refused-under-offset", case, "Err(OutOfRange)".into(), format!("{:?}", other)),
+    }
+}
+
 fn probe_setter(ty: u8, setter: usize, day: i64, nod: u64, v: i64) -> bool {
     let r = call(|| match ty {
         0 => {
@@ -753,6 +825,25 @@ pub fn run(ctx: &Ctx) -> i32 {
         let (d, n, o, s, v) = ocases[i as usize];
         case_setter_offset(d, n, o, s, v, acc);
     });
+    // clock setters under offsets, receivers chosen by their local time of day
+    let local_times: Vec<u64> = vec![0, 1, 999_999_999, 1_000_000_000, 59_999_999_999, 60_000_000_000, 3_599_999_999_999, 3_600_000_000_000, 43_199_999_999_999, 43_200_000_000_000, 82_800_000_000_000, 86_340_000_000_000, 86_399_000_000_000, 86_399_999_999_999, 45_296_123_456_789];
+    let offs: Vec<i32> = vec![0, 1, -1, 59, -59, 60, -60, 3_599, 3_600, -3_600, 19_800, -34_200, 43_200, -43_200, 86_340, -86_340, 86_399, -86_399];
+    let mut ccases: Vec<(u8, i64, u64, i32, usize, i64)> = vec![];
+    for (ty, day) in [(1u8, 0i64), (2, 738_000), (2, -400)] {
+        for &l in &local_times {
+            for &o in &offs {
+                for setter in 4..10 {
+                    for v in setter_values(setter) {
+                        ccases.push((ty, day, l, o, setter, v));
+                    }
+                }
+            }
+        }
+    }
+    rep.sweep("clock setters on Time / DateTime under offsets (receivers by local time of day)", ccases.len() as u64, "15 local times (both ends of the local day, minute and hour edges) x 18 offsets x 6 setters x candidate values x {Time, DateTime AD, DateTime BC}", |i, acc| {
+        let (ty, d, l, o, s, v) = ccases[i as usize];
+        case_clock_setter_offset(ty, d, l, o, s, v, acc);
+    });
     rep.finish()
 }
 
@@ -766,6 +857,7 @@ pub fn replay(_op: &str, case: &Value, acc: &mut Acc) -> bool {
         Some("offset_from_seconds") => case_offset_from_seconds(case["sec"].as_i64().unwrap() as i32, true, acc),
         Some("offset_from_hms") => case_offset_from_hms(a[0].as_i64().unwrap() as i32, a[1].as_u64().unwrap() as u32, a[2].as_u64().unwrap() as u32, acc),
         Some("setter_offset") => case_setter_offset(case["day"].as_i64().unwrap(), case["nod"].as_str().unwrap().parse().unwrap(), case["off"].as_i64().unwrap() as i32, case["setter"].as_u64().unwrap() as usize, case["v"].as_i64().unwrap(), acc),
+        Some("clock_setter_offset") => case_clock_setter_offset(case["ty"].as_u64().unwrap() as u8, case["day"].as_i64().unwrap(), case["local_nod"].as_str().unwrap().parse().unwrap(), case["off"].as_i64().unwrap() as i32, case["setter"].as_u64().unwrap() as usize, case["v"].as_i64().unwrap(), acc),
         Some("setter") => case_setter(case["ty"].as_u64().unwrap() as u8, case["setter"].as_u64().unwrap() as usize, case["day"].as_i64().unwrap(), case["nod"].as_str().unwrap().parse().unwrap(), case["v"].as_i64().unwrap(), acc),
         _ => return false,
     }
